@@ -78,9 +78,43 @@ Theorem C12_record_iter_collects :
     Some (Ok ((252, fst st, match snd st with [] => None | _ => Some (snd st) end), tail)).
 Proof. exact next_record_sst. Qed.
 
+(* A formula's string result (FORMULA, then STRING, then CONTINUE records).  For every string
+   (length up to 65535, any UTF-16 code units) and every legal fragmentation of its character data
+   over the STRING record and its CONTINUE records — a cut before any character, also between the
+   two halves of a surrogate pair, empty segments allowed, every fragment with its own fHighByte
+   flag byte and any 8/16-bit mixture (8-bit only where the units fit) — and whatever else sits
+   in the CONTINUE queue behind the characters ([rest], e.g. flag-only CONTINUE records), the
+   String (0x0207) arm of the sheet loop, given the record body and Record::cont as RecordIter
+   builds it, returns the stored text.  Proved from the read_dbcs lemmas of the SST reader
+   (read_dbcs_ok, the character-data part of C12_string_read_exact) — the model is shared — and
+   from C12_parse_string_ok when no CONTINUE record follows. *)
+Theorem C12_formula_string_any_split :
+  forall us hb cuts rest, legal_fstring us hb cuts = true ->
+    string_arm (fst (frags (fstring_items us hb cuts ++ rest)))
+               (cont_opt (snd (frags (fstring_items us hb cuts ++ rest))))
+    = Ok (utf16_decode us).
+Proof. exact formula_string_any_split. Qed.
+
+Theorem C12_formula_string_layout_irrelevant :
+  forall us hb cuts hb' cuts',
+    legal_fstring us hb cuts = true -> legal_fstring us hb' cuts' = true ->
+    string_arm (fst (fstring_encode us hb cuts)) (cont_opt (snd (fstring_encode us hb cuts))) =
+    string_arm (fst (fstring_encode us hb' cuts')) (cont_opt (snd (fstring_encode us hb' cuts'))).
+Proof. exact fstring_layout_irrelevant. Qed.
+
+(* RecordIter hands the arm exactly the STRING body and the CONTINUE bodies the writer produced
+   (a record of any type followed by its CONTINUE records) *)
+Theorem C12_record_iter_collects_any :
+  forall t st tail,
+    len (fst st) <= 65535 -> forallb (fun c => len c <=? 65535) (snd st) = true ->
+    tail <> [] -> starts_continue tail = false ->
+    next_record (frame_rec t st ++ tail) = Some (Ok ((t, fst st, cont_opt (snd st)), tail)).
+Proof. exact next_record_conts. Qed.
+
 (* The whole path of the observation points: Workbook stream -> RecordIter -> globals loop
    (BoundSheet8 names, SST with its CONTINUE records) -> per-sheet loop (LABELSST through the table,
-   LABEL, FORMULA + STRING): sheet names and text cells are what the writer stored. *)
+   LABEL, FORMULA + STRING + CONTINUE records under any legal fragmentation of the result): sheet
+   names and text cells are what the writer stored. *)
 Theorem C12_workbook_strings :
   forall strs lay shs, legal_workbook strs lay shs = true ->
     wb_strings (workbook_stream strs lay shs) = Ok (wb_spec strs shs).
@@ -132,6 +166,9 @@ Proof. exact no_panic_record_iter. Qed.
 Theorem C12_no_panic_parse_string :
   forall r, parse_string r <> Panic /\ parse_string r <> OutOfFuel.
 Proof. exact no_panic_parse_string. Qed.
+Theorem C12_no_panic_string_arm :
+  forall d c, string_arm d c <> Panic /\ string_arm d c <> OutOfFuel.
+Proof. exact no_panic_string_arm. Qed.
 Theorem C12_no_panic_parse_label :
   forall r, parse_label r <> Panic /\ parse_label r <> OutOfFuel.
 Proof. exact no_panic_parse_label. Qed.
@@ -176,9 +213,21 @@ Example C12_workbook_nonvacuous :
   legal_workbook ex_strs ex_lay ex_sheets = true /\
   wb_spec ex_strs ex_sheets =
   [([83; 20013], [(0, 0, [104; 233; 233; 128512; 122]); (2, 0, [65279; 20013; 97]);
-                  (4, 1, [104; 105]); (6, 2, [128512])]);
+                  (4, 1, [104; 105]); (6, 2, [128512]); (7, 1, [104; 128512; 233; 105])]);
    ([66], [(5, 5, [65279; 20013; 97])])].
 Proof. exact example_workbook. Qed.
+Example C12_formula_string_nonvacuous :
+  legal_fstring [104; 55357; 56832; 233; 105] true [(2%nat, true); (1%nat, false)] = true /\
+  fstring_encode [104; 55357; 56832; 233; 105] true [(2%nat, true); (1%nat, false)] =
+    ([5; 0; 1; 104; 0; 61; 216], [[1; 0; 222]; [0; 233; 105]]) /\
+  string_arm [5; 0; 1; 104; 0; 61; 216] (Some [[1; 0; 222]; [0; 233; 105]]) =
+    Ok [104; 128512; 233; 105] /\
+  string_arm [5; 0; 1; 104; 0; 61; 216] (Some [[1; 0; 222]; [0; 233; 105]; [1]]) =
+    Ok [104; 128512; 233; 105] /\
+  records (frame_rec 519 (fstring_encode [104; 55357; 56832; 233; 105] true
+                            [(2%nat, true); (1%nat, false)]) ++ frame 10 []) =
+    [Ok (519, [5; 0; 1; 104; 0; 61; 216], Some [[1; 0; 222]; [0; 233; 105]]); Ok (10, [], None)].
+Proof. exact example_fstring. Qed.
 Example C12_empty_xl_string_ok :
   parse_string (xl_string false []) = Ok [] /\
   parse_label (label_body 3 7 15 true []) = Ok (Some (3, 7, [])).
@@ -204,6 +253,11 @@ Check C12_labelsst_resolves :
     exists tbl, parse_sst (sst_encode strs lay) = Ok tbl /\
       parse_label_sst (labelsst_body row col ixfe i) tbl =
       Ok (if is_nil (units s) then None else Some (row, col, utf16_decode (units s))).
+Check C12_formula_string_any_split :
+  forall us hb cuts rest, legal_fstring us hb cuts = true ->
+    string_arm (fst (frags (fstring_items us hb cuts ++ rest)))
+               (cont_opt (snd (frags (fstring_items us hb cuts ++ rest))))
+    = Ok (utf16_decode us).
 Check C12_workbook_strings :
   forall strs lay shs, legal_workbook strs lay shs = true ->
     wb_strings (workbook_stream strs lay shs) = Ok (wb_spec strs shs).
@@ -240,6 +294,11 @@ Print Assumptions C12_parse_label_ok.
 Print Assumptions C12_sheet_name_ok.
 Print Assumptions C12_record_iter_collects.
 Print Assumptions C12_workbook_strings.
+Print Assumptions C12_formula_string_any_split.
+Print Assumptions C12_formula_string_layout_irrelevant.
+Print Assumptions C12_record_iter_collects_any.
+Print Assumptions C12_no_panic_string_arm.
+Print Assumptions C12_formula_string_nonvacuous.
 Print Assumptions C12_segment_decoder.
 Print Assumptions C12_decode_app.
 Print Assumptions C12_sst_fuel_suffices.
